@@ -376,6 +376,11 @@ func (s *nsStrategy) offered(call string, phs []tmconsensus.ProposedHeader) {
 
 func (s *nsStrategy) decided() {
 	n := s.n
+	// Only a decision taken while the mirror is in the machine's round counts: the mirror
+	// drops the vote of a machine that ran ahead of it (known engine behaviour).
+	if vh, vr, _, _, err := n.ms.NetworkHeightRound(context.Background()); err != nil || vh != s.curH || vr != s.curR {
+		return
+	}
 	n.mu.Lock()
 	n.prevoteDec = nsDecision{H: s.curH, R: s.curR, Inc: n.incarnation, Set: true}
 	if n.x != nil {
